@@ -31,11 +31,10 @@ Qed.
 
 Lemma wfb_wf E i : wfb E i = true -> NoDup (map fst i) -> wf E i.
 Proof.
-  unfold wfb. intros H ND. apply andb_true_iff in H as [H1 H2]. rewrite forallb_forall in H1, H2. split.
-  - intros x y Hx Hy L P. specialize (H1 x Hx). rewrite L in H1. simpl in H1.
-    rewrite forallb_forall in H1. specialize (H1 y Hy). rewrite P in H1. simpl in H1.
-    apply key_eqb_eq in H1. now apply (nodup_keys_eq i).
-  - intros [k e] Hx C. specialize (H2 (k, e) Hx). simpl in *. subst k. discriminate.
+  unfold wfb. intros H1 ND. rewrite forallb_forall in H1.
+  intros x y Hx Hy L P. specialize (H1 x Hx). rewrite L in H1. simpl in H1.
+  rewrite forallb_forall in H1. specialize (H1 y Hy). rewrite P in H1. simpl in H1.
+  apply key_eqb_eq in H1. now apply (nodup_keys_eq i).
 Qed.
 
 Lemma tree_rowsb_tree rows : tree_rowsb rows = true -> tree_rows rows.
